@@ -40,11 +40,15 @@ def alias_cases(rnd):
                 continue
             a = ops.tensor(rnd, d, [3], "small", mask="random")
             wr = {"bool": "True", "float64": "7.5"}.get(ops.base(d), "7")
-            for direction in ("mutate-result", "mutate-argument"):
+            for direction in ("mutate-result", "mutate-argument", "mutate-sibling"):
                 if direction == "mutate-result":
                     impl = f"a0 = a.copy(); b = {e}; b[...] = {wr}; out = [a, a0]"
-                else:
+                elif direction == "mutate-argument":
                     impl = f"b = {e}; b0 = b.copy(); a[...] = {wr}; out = [b, b0]"
+                else:
+                    # two results of the same call on the same argument are independent arrays
+                    wr2 = "1" if "nda.shape" in e else wr
+                    impl = f"b = {e}; c_ = {e}; c0 = c_.copy(); b[...] = {wr2}; out = [c_, c0]"
                 cases.append({"id": f"A-{len(cases)}", "inputs": {"a": a}, "impl": impl, "oracle": None, "eager": True, "lazy_subsets": [],
                               "meta": {"func": e.split("(")[0].replace("ndx.", ""), "expr": e, "dtype": d, "dclass": family.dclass(d), "direction": direction}})
     return cases
@@ -161,7 +165,8 @@ def run(ctx):
         n_alias += 1
         x, x0 = e["ok"]["tuple"]
         if ops.cmp_arrays(x, x0, erase_masked=False) is not None:
-            what = "modifying the result changed the argument" if c["meta"]["direction"] == "mutate-result" else "modifying the argument changed a result obtained earlier"
+            what = {"mutate-result": "modifying the result changed the argument", "mutate-argument": "modifying the argument changed a result obtained earlier",
+                    "mutate-sibling": "modifying one result changed another result of the same call"}[c["meta"]["direction"]]
             ctx.finding({"func": c["meta"]["func"], "expr": c["meta"]["expr"], "dtype": c["meta"]["dtype"], "dclass": c["meta"]["dclass"], "kind": "alias", "direction": c["meta"]["direction"]},
                         f"b = {c['meta']['expr']}: {what} ({c['meta']['dtype']})", family.replay_of(c, r, "eager"))
     ctx.coverage["alias_table_rows"] = n_alias
